@@ -21,8 +21,9 @@ class SchedAdapter:
     def __init__(self, desc, targets, props, reqs=2, mode='ample',
                  req_menu=None, outcomes=OUTCOMES, max_workers=2,
                  max_copies=2, double_reply=False, revs=None, life=False, poll=False,
-                 max_life=2, clock_at=None, max_timers=0, faults=0):
+                 max_life=2, clock_at=None, max_timers=0, faults=0, journal_faults=False):
         self.faults = faults
+        self.journal_faults = journal_faults
         import datetime
         if isinstance(clock_at, str):
             clock_at = datetime.datetime.fromisoformat(clock_at)
@@ -158,7 +159,8 @@ class SchedAdapter:
         return tuple(sorted(m.items()))
 
     def internal(self, ev):
-        return (ev[0] in ('tick', 'reply')) and ev != ('tick', 'db-outage')
+        return (ev[0] in ('tick', 'reply')) and ev != ('tick', 'db-outage') \
+            and not (ev[0] == 'reply' and str(ev[4]).endswith('!journal-outage'))
 
     def enabled(self, s):
         evs = []
@@ -176,6 +178,10 @@ class SchedAdapter:
             seen.add((j, t, r))
             for o in self.outcomes:
                 evs.append(('reply', j, t, r, o))
+            if self.journal_faults and s['mon'].get('faults', 0) < self.faults:
+                # the reply arrives while the history journal cannot be written
+                for o in self.outcomes[:2]:
+                    evs.append(('reply', j, t, r, o + '!journal-outage'))
         if self.mode == 'explicit':
             if len(s['workers']) < self.max_workers:
                 for rev in self.revs:
@@ -210,12 +216,16 @@ class SchedAdapter:
             idx = [i for i, u in enumerate(w.inflight) if tuple(u[:3]) == (j, t, r)]
             if not idx:
                 raise common.HarnessBroken(f'reply for unit not in flight: {ev}')
+            if o.endswith('!journal-outage'):
+                o = o.split('!')[0]
+                w.journal_fault = True
             new = None
             if o == 'success-none-new':
                 o, new = 'success', set()
             elif len(ev) > 5:
                 new = set(ev[5])
             w.ev_reply(idx[0], o, new)
+            w.journal_fault = False
         elif kind == 'reg':
             w.ev_reg(ev[1] if len(ev) > 1 else None)
         elif kind == 'timer':
@@ -380,7 +390,7 @@ class SchedAdapter:
             mon['trig'] = tuple(sorted(trig.items()))
         if ev[0] == 'life':
             mon['life'] = mon.get('life', 0) + 1
-        if tuple(ev) == ('tick', 'db-outage'):
+        if tuple(ev) == ('tick', 'db-outage') or (ev[0] == 'reply' and str(ev[4]).endswith('!journal-outage')):
             mon['faults'] = mon.get('faults', 0) + 1
         if ev[0] == 'timer':
             mon['ntimer'] = mon.get('ntimer', 0) + 1
